@@ -38,6 +38,7 @@ class PathCap(BaseException):
 
 
 EX = None  # current Explorer (set by sx.explore)
+SHARE_PRODUCTS = True
 
 
 def set_explorer(ex):
@@ -215,6 +216,14 @@ class Poison:
         return self
     __hash__ = object.__hash__
 
+    def __getattr__(self, name):
+        if name.startswith('__'):
+            raise AttributeError(name)
+        return self._p                   # any method call on a poisoned value yields the poisoned value
+
+    def __call__(self, *a, **k):
+        return self
+
 
 for _n in ('add radd sub rsub mul rmul truediv rtruediv floordiv rfloordiv mod rmod pow rpow neg pos abs invert '
            'lshift rlshift rshift rrshift and rand or ror xor rxor lt le gt ge eq ne').split():
@@ -383,7 +392,11 @@ def isub(a, b):
 def ineg(a):
     if not _isinstance(a, (SInt, SBool)):
         return -int(a)
-    return isub(0, a)
+    a = lift(a)
+    lo, hi = -a.hi, -a.lo
+    w = _max(bits_for(lo, hi), a.w)
+    x = a.ext(w)
+    return mk(~x + 1, lo, hi)            # not `0 - x`: z3 rewrites that into a multiplication by -1
 
 
 def imul(a, b):
@@ -408,6 +421,8 @@ def imul(a, b):
             r = mk(a.ext(w) << k, lo, hi)
             return r if c > 0 else ineg(r)
     c = [a.lo * b.lo, a.lo * b.hi, a.hi * b.lo, a.hi * b.hi]
+    if EX is not None and SHARE_PRODUCTS:
+        return EX.product(a, b, _min(c), _max(c))
     return _bin(a, b, lambda x, y: x * y, _min(c), _max(c))
 
 
@@ -519,9 +534,10 @@ def iabs(a):
     if a.hi <= 0:
         return ineg(a)
     hi = _max(-a.lo, a.hi)
-    w = bits_for(0, hi)
+    w = _max(bits_for(0, hi), a.w)
     x = a.ext(w)
-    return mk(z3.If(x < 0, -x, x), 0, hi)
+    sgn = x >> (w - 1)                   # arithmetic shift: all ones when negative
+    return mk((x ^ sgn) - sgn, 0, hi)
 
 
 def _full(w):
@@ -951,24 +967,39 @@ def int_to_float(v, rounding=True):
 
 
 def round53(v):
-    """round integer v to 53 significant bits, ties to even (the value float(v) denotes)"""
+    """round integer v to 53 significant bits, ties to even (the value float(v) denotes).
+    Encoding: normalise |v| with a logarithmic shifter (count-leading-zeros by binary search), round the top 53 bits
+    with guard/sticky, shift back -- O(W log W) gates instead of one case per bit-length."""
     if not _isinstance(v, SInt):
         return int(float(v))
     m = _max(_abs(v.lo), _abs(v.hi))
     top = m.bit_length()
     if top <= 53:
         return v
+    P = 64
+    while P < top + 1:
+        P *= 2
     a = iabs(v)
-    out = a
-    for L in range(54, top + 1):
-        s = L - 53
-        q = ishr(a, s)
-        rem = imod_pow2(a, s)
-        half = 1 << (s - 1)
-        up = b_or(icmp(rem, half, '>'), b_and(icmp(rem, half, '=='), icmp(imod_pow2(q, 1), 1, '==')))
-        r = ishl(iadd(q, iite(up, 1, 0)), s)
-        out = iite(icmp(a, 1 << (L - 1), '>='), r, out)
-    return iite(icmp(v, 0, '<'), ineg(out), out)
+    n = z3.ZeroExt(P - a.w, a.bv) if a.w < P else z3.Extract(P - 1, 0, a.bv)
+    conds = []
+    k = P // 2
+    while k >= 1:
+        c = z3.Extract(P - 1, P - k, n) == z3.BitVecVal(0, k)
+        n = z3.If(c, n << k, n)
+        conds.append((c, k))
+        k //= 2
+    top53 = z3.Extract(P - 1, P - 53, n)
+    rest = z3.Extract(P - 54, 0, n)
+    half = z3.BitVecVal(1 << (P - 54), P - 53)
+    up = z3.Or(z3.UGT(rest, half), z3.And(rest == half, z3.Extract(0, 0, top53) == z3.BitVecVal(1, 1)))
+    mant = z3.ZeroExt(1, top53) + z3.If(up, z3.BitVecVal(1, 54), z3.BitVecVal(0, 54))          # 54 bits, may be 2^53
+    r = z3.Concat(mant, z3.BitVecVal(0, P - 53))                                                  # P + 1 bits
+    for c, k in reversed(conds):
+        r = z3.If(c, z3.LShR(r, k), r)
+    # values with <= 53 significant bits come back unchanged (rest == 0); zero stays zero
+    hi = 1 << top
+    mag = mk(z3.ZeroExt(1, r), 0, hi)
+    return iite(icmp(v, 0, '<'), ineg(mag), mag)
 
 
 def _fexact(num, exp, why):
@@ -983,7 +1014,7 @@ def _fexact(num, exp, why):
     r = refine(num, -(1 << 53), 1 << 53)
     if r is not None:
         return SFloat(r, exp)
-    if m.bit_length() <= 53 + 40:
+    if m.bit_length() <= 1100:
         return SFloat(round53(num), exp)
     return Poison('inexact float operation: ' + why)
 
@@ -1003,12 +1034,19 @@ def faligned(a, b):
     return x, y, e
 
 
+def _xlift(x):
+    """exact lift for comparisons: Python compares int with float exactly (no conversion of the int)"""
+    if _isinstance(x, (SInt, SBool)) or _isinstance(x, int):
+        return SFloat(bool_to_int(x) if _isinstance(x, (bool, SBool)) else x, 0)
+    return flift(x)
+
+
 def fcmp(a, b, op):
     if is_poison(a) or is_poison(b):
         return a if is_poison(a) else b
     if not is_sym(a) and not is_sym(b):
         return _CMP[op](a, b)
-    x, y, _ = faligned(a, b)
+    x, y, _ = faligned(_xlift(a), _xlift(b))
     return icmp(x, y, op)
 
 
